@@ -122,8 +122,7 @@ impl Io {
         let prefix_only = self.adopted_at.is_some();
         let tables: Vec<&(usize, Vec<String>)> = self.tables.iter().filter(|t| t.0 <= limit).collect();
         let mut furthest = Mismatch::default();
-        let mut failed = std::collections::HashSet::new();
-        if match_from(&self.output[..limit], &tables, 0, 0, got, 0, prefix_only, &mut furthest, &mut failed) {
+        if match_from(&self.output[..limit], &tables, got, prefix_only, &mut furthest) {
             Ok(())
         } else {
             Err(furthest)
@@ -180,45 +179,62 @@ fn is_border_line(line: &[u8]) -> bool {
     true
 }
 
-/// `exp[ei..]` with the tables from `ti` on against `got[gi..]`.
-#[allow(clippy::too_many_arguments)]
-fn match_from(
-    exp: &[u8],
-    tables: &[&(usize, Vec<String>)],
-    ti: usize,
-    ei: usize,
-    got: &[u8],
-    gi: usize,
-    prefix_only: bool,
-    furthest: &mut Mismatch,
-    failed: &mut std::collections::HashSet<(usize, usize)>,
-) -> bool {
-    if failed.contains(&(ti, gi)) {
-        return false;
+/// What one step of the search found at (table index, offset in the real output).
+enum Expansion {
+    /// Decided here: the rest matches / cannot match.
+    Done(bool),
+    /// The literal part matched and the table was found: offsets where the table may end.
+    Ends(Vec<usize>),
+}
+
+/// The expected output with the tables from `ti` on against `got[gi..]`: a depth-first search
+/// over the places where each table may end, with an explicit stack (a program that prints
+/// its registers in a loop has thousands of tables) and a memo of the states that failed.
+fn match_from(exp: &[u8], tables: &[&(usize, Vec<String>)], got: &[u8], prefix_only: bool, furthest: &mut Mismatch) -> bool {
+    struct Frame {
+        ti: usize,
+        gi: usize,
+        ends: Vec<usize>,
+        next: usize,
     }
-    let ok = match_here(exp, tables, ti, ei, got, gi, prefix_only, furthest, failed);
-    if !ok {
-        failed.insert((ti, gi));
+    let mut failed: std::collections::HashSet<(usize, usize)> = std::collections::HashSet::new();
+    let mut stack: Vec<Frame> = Vec::new();
+    let mut pending = Some((0usize, 0usize));
+    loop {
+        if let Some((ti, gi)) = pending.take() {
+            if !failed.contains(&(ti, gi)) {
+                match match_here(exp, tables, ti, got, gi, prefix_only, furthest) {
+                    Expansion::Done(true) => return true,
+                    Expansion::Done(false) => {
+                        failed.insert((ti, gi));
+                    }
+                    Expansion::Ends(ends) => stack.push(Frame { ti, gi, ends, next: 0 }),
+                }
+            }
+        }
+        // The next candidate of the innermost table that has one left
+        loop {
+            let Some(top) = stack.last_mut() else {
+                return false;
+            };
+            if top.next < top.ends.len() {
+                let end = top.ends[top.next];
+                top.next += 1;
+                pending = Some((top.ti + 1, end));
+                break;
+            }
+            failed.insert((top.ti, top.gi));
+            stack.pop();
+        }
     }
-    ok
 }
 
 /// A decorated table is at most this long.
 const TABLE_WINDOW: usize = 8192;
 
-#[allow(clippy::too_many_arguments)]
-fn match_here(
-    exp: &[u8],
-    tables: &[&(usize, Vec<String>)],
-    ti: usize,
-    ei: usize,
-    got: &[u8],
-    gi: usize,
-    prefix_only: bool,
-    furthest: &mut Mismatch,
-    failed: &mut std::collections::HashSet<(usize, usize)>,
-) -> bool {
-    // Literal part up to the next table (or the end)
+fn match_here(exp: &[u8], tables: &[&(usize, Vec<String>)], ti: usize, got: &[u8], gi: usize, prefix_only: bool, furthest: &mut Mismatch) -> Expansion {
+    // Literal part from the end of the previous table up to the next table (or the end)
+    let ei = if ti == 0 { 0 } else { tables[ti - 1].0 };
     let lit_end = tables.get(ti).map(|t| t.0).unwrap_or(exp.len());
     let lit = &exp[ei..lit_end];
     let agree = lit.iter().zip(got[gi.min(got.len())..].iter()).take_while(|(a, b)| a == b).count();
@@ -230,16 +246,16 @@ fn match_here(
         };
     }
     if agree < lit.len() {
-        return false;
+        return Expansion::Done(false);
     }
     let gi = gi + lit.len();
     let Some(table) = tables.get(ti) else {
-        return prefix_only || gi == got.len();
+        return Expansion::Done(prefix_only || gi == got.len());
     };
     // The table: any text holding the values in order, followed by the rest
     let window = &got[gi..got.len().min(gi + TABLE_WINDOW)];
     let Some(min_end) = tokens_end(window, &table.1) else {
-        return false;
+        return Expansion::Done(false);
     };
     if gi + min_end > furthest.got_at {
         *furthest = Mismatch {
@@ -276,14 +292,10 @@ fn match_here(
     // Cheap test first: the byte that must follow the table
     let next_byte = exp.get(lit_end).copied().filter(|_| tables.get(ti + 1).map(|t| t.0 > lit_end).unwrap_or(true));
     ends.dedup();
-    ends.into_iter().any(|end| {
-        if let Some(b) = next_byte {
-            if got.get(end) != Some(&b) {
-                return false;
-            }
-        }
-        match_from(exp, tables, ti + 1, lit_end, got, end, prefix_only, furthest, failed)
-    })
+    if let Some(b) = next_byte {
+        ends.retain(|end| got.get(*end) == Some(&b));
+    }
+    Expansion::Ends(ends)
 }
 
 /// Result of one fetch/execute cycle.
@@ -661,5 +673,206 @@ pub fn is_return(word: u16) -> bool {
         0xC => (word >> 6) & 7 == 7,
         0xD => (word >> 10) & 3 == 2,
         _ => false,
+    }
+}
+
+#[cfg(test)]
+mod matcher_tests {
+    //! The explicit-stack search must decide exactly what the recursive formulation it replaced
+    //! decided (kept here as the reference), and must not be limited by the thread's stack.
+    use super::*;
+
+    /// `exp[ei..]` with the tables from `ti` on against `got[gi..]`.
+    #[allow(clippy::too_many_arguments)]
+    fn old_match_from(
+        exp: &[u8],
+        tables: &[&(usize, Vec<String>)],
+        ti: usize,
+        ei: usize,
+        got: &[u8],
+        gi: usize,
+        prefix_only: bool,
+        furthest: &mut Mismatch,
+        failed: &mut std::collections::HashSet<(usize, usize)>,
+    ) -> bool {
+        if failed.contains(&(ti, gi)) {
+            return false;
+        }
+        let ok = old_match_here(exp, tables, ti, ei, got, gi, prefix_only, furthest, failed);
+        if !ok {
+            failed.insert((ti, gi));
+        }
+        ok
+    }
+
+
+    #[allow(clippy::too_many_arguments)]
+    fn old_match_here(
+        exp: &[u8],
+        tables: &[&(usize, Vec<String>)],
+        ti: usize,
+        ei: usize,
+        got: &[u8],
+        gi: usize,
+        prefix_only: bool,
+        furthest: &mut Mismatch,
+        failed: &mut std::collections::HashSet<(usize, usize)>,
+    ) -> bool {
+        // Literal part up to the next table (or the end)
+        let lit_end = tables.get(ti).map(|t| t.0).unwrap_or(exp.len());
+        let lit = &exp[ei..lit_end];
+        let agree = lit.iter().zip(got[gi.min(got.len())..].iter()).take_while(|(a, b)| a == b).count();
+        if gi + agree >= furthest.got_at {
+            *furthest = Mismatch {
+                got_at: gi + agree,
+                exp_at: ei + agree,
+                in_table: agree == lit.len() && tables.get(ti).is_some(),
+            };
+        }
+        if agree < lit.len() {
+            return false;
+        }
+        let gi = gi + lit.len();
+        let Some(table) = tables.get(ti) else {
+            return prefix_only || gi == got.len();
+        };
+        // The table: any text holding the values in order, followed by the rest
+        let window = &got[gi..got.len().min(gi + TABLE_WINDOW)];
+        let Some(min_end) = tokens_end(window, &table.1) else {
+            return false;
+        };
+        if gi + min_end > furthest.got_at {
+            *furthest = Mismatch {
+                got_at: gi + min_end,
+                exp_at: lit_end,
+                in_table: false,
+            };
+        }
+        // Where the table may end: anywhere on the rest of the line that holds its last value, or
+        // after one of the few border lines (no letters or digits outside escape sequences) below it
+        let mut ends: Vec<usize> = Vec::new();
+        let mut at = min_end;
+        loop {
+            ends.push(gi + at);
+            if at >= window.len() || at - min_end > 256 {
+                break;
+            }
+            at += 1;
+            if window[at - 1] == b'\n' {
+                ends.push(gi + at);
+                break;
+            }
+        }
+        for _ in 0..4 {
+            let Some(len) = window[at.min(window.len())..].iter().position(|b| *b == b'\n') else {
+                break;
+            };
+            if !is_border_line(&window[at..at + len]) {
+                break;
+            }
+            at += len + 1;
+            ends.push(gi + at);
+        }
+        // Cheap test first: the byte that must follow the table
+        let next_byte = exp.get(lit_end).copied().filter(|_| tables.get(ti + 1).map(|t| t.0 > lit_end).unwrap_or(true));
+        ends.dedup();
+        ends.into_iter().any(|end| {
+            if let Some(b) = next_byte {
+                if got.get(end) != Some(&b) {
+                    return false;
+                }
+            }
+            old_match_from(exp, tables, ti + 1, lit_end, got, end, prefix_only, furthest, failed)
+        })
+    }
+
+
+    struct R(u64);
+    impl R {
+        fn next(&mut self) -> u64 {
+            self.0 ^= self.0 << 13;
+            self.0 ^= self.0 >> 7;
+            self.0 ^= self.0 << 17;
+            self.0
+        }
+        fn below(&mut self, n: u64) -> u64 {
+            self.next() % n
+        }
+    }
+
+    fn case(r: &mut R) -> (Vec<u8>, Vec<(usize, Vec<String>)>, Vec<u8>, bool) {
+        let alphabet = b"ab1 \n";
+        let mut exp: Vec<u8> = Vec::new();
+        let mut got: Vec<u8> = Vec::new();
+        let mut tables = Vec::new();
+        for _ in 0..r.below(5) {
+            for _ in 0..r.below(4) {
+                let c = alphabet[r.below(alphabet.len() as u64) as usize];
+                exp.push(c);
+                got.push(c);
+            }
+            if r.below(3) > 0 {
+                let tokens: Vec<String> = (0..1 + r.below(3)).map(|_| format!("{}", r.below(3))).collect();
+                tables.push((exp.len(), tokens.clone()));
+                for t in &tokens {
+                    for _ in 0..r.below(3) {
+                        got.push(b" |r=\n"[r.below(5) as usize]);
+                    }
+                    got.extend_from_slice(t.as_bytes());
+                }
+                for _ in 0..r.below(4) {
+                    got.push(b" |1\n-"[r.below(5) as usize]);
+                }
+            }
+        }
+        // Damage now and then
+        if r.below(3) == 0 && !got.is_empty() {
+            let at = r.below(got.len() as u64) as usize;
+            match r.below(3) {
+                0 => got[at] = b'x',
+                1 => {
+                    got.remove(at);
+                }
+                _ => got.insert(at, b'1'),
+            }
+        }
+        (exp, tables, got, r.below(4) == 0)
+    }
+
+    #[test]
+    fn same_verdicts_as_the_recursive_search() {
+        let mut r = R(0x9E3779B97F4A7C15);
+        let mut accepted = 0;
+        for _ in 0..200_000 {
+            let (exp, tables, got, prefix_only) = case(&mut r);
+            let refs: Vec<&(usize, Vec<String>)> = tables.iter().collect();
+            let mut f_old = Mismatch::default();
+            let mut failed = std::collections::HashSet::new();
+            let old = old_match_from(&exp, &refs, 0, 0, &got, 0, prefix_only, &mut f_old, &mut failed);
+            let mut f_new = Mismatch::default();
+            let new = match_from(&exp, &refs, &got, prefix_only, &mut f_new);
+            assert_eq!(old, new, "exp {:?} tables {:?} got {:?}", String::from_utf8_lossy(&exp), tables, String::from_utf8_lossy(&got));
+            assert_eq!((f_old.got_at, f_old.exp_at, f_old.in_table), (f_new.got_at, f_new.exp_at, f_new.in_table));
+            accepted += old as u32;
+        }
+        assert!(accepted > 20_000 && accepted < 190_000, "{}", accepted);
+    }
+
+    #[test]
+    fn a_hundred_thousand_tables() {
+        let mut exp: Vec<u8> = Vec::new();
+        let mut got: Vec<u8> = Vec::new();
+        let mut tables = Vec::new();
+        for i in 0..100_000u32 {
+            exp.push(b'a');
+            got.push(b'a');
+            tables.push((exp.len(), vec![format!("x{:04X}", i & 0xFFFF)]));
+            got.extend_from_slice(format!("R0 x{:04X}\n", i & 0xFFFF).as_bytes());
+        }
+        let refs: Vec<&(usize, Vec<String>)> = tables.iter().collect();
+        let mut f = Mismatch::default();
+        assert!(match_from(&exp, &refs, &got, false, &mut f));
+        got.push(b'!');
+        assert!(!match_from(&exp, &refs, &got, false, &mut f));
     }
 }
